@@ -332,7 +332,7 @@ func runCopy(mode string, seed int64, tier string, sc *Script) map[string]any {
 					}
 				}
 				if len(blobs) > 0 {
-					cc.faults = []fault{{op: []string{"postCopy", "preCopy", "mounted", "push", "fetch"}[rng.Intn(5)], node: blobs[rng.Intn(len(blobs))], mode: "before"}}
+					cc.faults = []fault{{op: []string{"postCopy", "preCopy", "mounted", "push", "fetch", "mount", "mount"}[rng.Intn(7)], node: blobs[rng.Intn(len(blobs))], mode: "before"}}
 					cc.cancel = false
 				}
 			}
@@ -407,6 +407,27 @@ func runCopy(mode string, seed int64, tier string, sc *Script) map[string]any {
 			op := []string{"push", "fetch", "preCopy", "postCopy", "exists"}[rng.Intn(5)]
 			cc := copyCase{u: u, roots: []int{root.ID}, dst: []dstKind{"memory", "oci"}[rng.Intn(2)], conc: 2 + rng.Intn(4),
 				faults: []fault{{op: op, node: shared.ID, mode: "before"}}, label: "shared-failing-kid"}
+			exec(cc, caseNo)
+			caseNo++
+		}
+	}
+	// C02: the mount of a blob fails at the first of two candidate repositories, before any
+	// side effect: the copy reports the error, the destination stays closed, a retry completes
+	if mode == "C02" {
+		reps := 8
+		if tier == "thorough" {
+			reps = 120
+		}
+		for i := 0; i < reps; i++ {
+			u := NewUniverse()
+			cfgB := u.AddBlob(ocispec.MediaTypeImageConfig, []byte(fmt.Sprintf("{\"mf\":%d}", i))) // id 0: one candidate
+			l1 := u.AddBlob(ocispec.MediaTypeImageLayer, []byte(fmt.Sprintf("mf-l1-%d", i)))       // id 1: two candidates
+			l2 := u.AddBlob(ocispec.MediaTypeImageLayer, []byte(fmt.Sprintf("mf-l2-%d", i)))       // id 2: one
+			l3 := u.AddBlob(ocispec.MediaTypeImageLayer, []byte(fmt.Sprintf("mf-l3-%d", i)))       // id 3: two
+			root := u.AddImage(KOCIManifest, cfgB.ID, []int{l1.ID, l2.ID, l3.ID}, -1, "", map[string]string{"mf": fmt.Sprint(i)})
+			victim := []int{l1.ID, l3.ID, cfgB.ID, l2.ID}[i%4]
+			cc := copyCase{u: u, roots: []int{root.ID}, dst: []dstKind{"memory", "oci"}[i%2], conc: 1 + rng.Intn(3), mount: true,
+				faults: []fault{{op: "mount", node: victim, mode: "before"}}, label: "mount-fault-first-candidate"}
 			exec(cc, caseNo)
 			caseNo++
 		}
